@@ -343,8 +343,8 @@ class LoopMixin:
                 facts = [c for i, c in enumerate(st2.pc) if i >= n_pc0 and i in st2.assumed]
                 results.append(dict(outcome=outcome, payload=payload, cond=z3.And(*delta) if delta else TRUE, st=st2, env=env2,
                                     effects=st2.effects[n_eff0:], facts=facts, counts=st2.counts[n_cnt0:]))
-                if len(results) > 400:
-                    raise Unsupported("loop body has more than 400 paths")
+                if len(results) > getattr(self.registry, "max_body_paths", 400):
+                    raise Unsupported(f"loop body has more than {getattr(self.registry, 'max_body_paths', 400)} paths")
         finally:
             self.st = orig_st
             _values._fresh = _it.count(max_counter + 1)
@@ -542,6 +542,7 @@ class LoopMixin:
         carried_writes: dict[str, list] = {}
         obj_writes: dict[tuple, list] = {}
         dict_writes: dict[int, list] = {}  # did -> [(cond, 'set'|'del', key term, value term)]
+        dict_unions: dict[int, list] = {}  # did -> [(cond, presence array at the end of the body)]  (nested set-insert loops)
         family = self._family(seg.lid) if seg.lid >= 0 else set()
         for r in normals:
             c = gen(r["cond"])
@@ -615,6 +616,16 @@ class LoopMixin:
                     if rec.backing is not None and rec.backing[0] in family:
                         continue  # written through to the element arrays (handled as field writes)
                     kinds = set()
+                    if "loop" in rec.meta["mut"]:
+                        # the body itself contains a summarised loop that writes this dict.  Supported when every write of
+                        # the whole nest only ADDS keys (set-insert): the dict after the outer loop contains the dict before
+                        # it and, for every iteration, everything the body's final dict contains (which keys else it holds
+                        # is left open -- an over-approximation of the reachable states)
+                        if "loop-set" not in rec.meta["mut"] or any(isinstance(m, tuple) and m[0] != "set" for m in rec.meta["mut"]) \
+                                or any(isinstance(m, str) and m in ("update", "clear", "pop") for m in rec.meta["mut"]):
+                            raise Unsupported("nested summarised loops that delete or overwrite keys of one dict")
+                        dict_unions.setdefault(did, []).append((c, gen(rec.has)))
+                        continue
                     for m in rec.meta["mut"]:
                         if isinstance(m, str):
                             if m in ("update", "clear", "loop"):
@@ -674,8 +685,30 @@ class LoopMixin:
                 rec.segs = cur + new
                 rec.meta["unordered"] = True
             rec.write_log.append(("$segs", None))  # seen by an enclosing summarised loop: nested accumulation
-        if seg.outer and (field_writes or carried_writes or obj_writes or dict_writes):
+        if seg.outer and (field_writes or carried_writes or obj_writes or dict_writes or dict_unions):
             raise Unsupported("state update inside a loop over a nested comprehension")
+        for did, lst in dict_unions.items():
+            if did in dict_writes:
+                raise Unsupported("a dict written both directly and through a nested loop in one loop body")
+            d = SDict(did)
+            self.ops.dict_symbolize(d)
+            rec = st.dicts[did]
+            if rec.backing is not None:
+                raise Unsupported("summarised loop writes a dict held by a list element other than the current one")
+            kq = z3.Int(fresh_name("dk"))
+            has2 = z3.Array(fresh_name("has_after_loops"), z3.IntSort(), z3.BoolSort())
+            vals2 = z3.Array(fresh_name("vals_after_loops"), z3.IntSort(), rec.vals.sort().range())
+            st.assume(z3.ForAll([kq], z3.Implies(z3.Select(rec.has, kq), z3.Select(has2, kq))))
+            for c, has_end in lst:
+                st.assume(z3.ForAll([g, kq], z3.Implies(z3.And(in_range, c, z3.Select(has_end, kq)), z3.Select(has2, kq))))
+            # what the body establishes about its final dict (facts of the inner summaries) holds in EVERY iteration, not
+            # only in the generic one: state it universally so that it can be combined with the union above
+            for r in normals:
+                if r["facts"]:
+                    st.assume(z3.ForAll([g], z3.Implies(z3.And(in_range, gen(r["cond"])), z3.And(*[gen(f) for f in r["facts"]]))))
+            rec.has, rec.vals = has2, vals2
+            rec.meta.pop("nonempty", None)
+            rec.meta.setdefault("mut", []).extend(["loop", "loop-set"])
         # ---- apply: writes to dicts of the outer state
         for did, lst in dict_writes.items():
             d = SDict(did)
@@ -712,6 +745,8 @@ class LoopMixin:
                 rec.has, rec.vals = has2, vals2
             rec.meta.pop("nonempty", None)
             rec.meta.setdefault("mut", []).append("loop")
+            if all(kind == "set" for _c, kind, _kt, _v in lst):
+                rec.meta["mut"].append("loop-set")
         # ---- apply: element fields (lambda update at the level of g)
         for (lid, key), lst in field_writes.items():
             rec = st.lists[lid]
@@ -845,6 +880,25 @@ class LoopMixin:
         segs = self.iter_segments(it)
         d = self.ops.new_dict()
         cenv = Env(env, env.module, env.func)
+        if any(not isinstance(s, tuple) for s in segs):
+            # over a symbolic sequence: the comprehension is the loop `for target in it: if conds: d[key] = value` on a fresh
+            # dict, summarised like any other loop that writes an outer dict (presence exact, values of keys written by
+            # several iterations not represented)
+            import ast as _ast
+
+            name = f"$dictcomp{self.st.new_id()}"
+            cenv.vars[name] = d
+            assign = _ast.Assign(targets=[_ast.Subscript(value=_ast.Name(id=name, ctx=_ast.Load()), slice=node.key, ctx=_ast.Store())], value=node.value)
+            body = [assign]
+            for c in reversed(gen.ifs):
+                body = [_ast.If(test=c, body=body, orelse=[])]
+            loop = _ast.For(target=gen.target, iter=gen.iter, body=body, orelse=[])
+            _ast.fix_missing_locations(_ast.copy_location(loop, node))
+            for n_ in _ast.walk(loop):
+                if not hasattr(n_, "lineno"):
+                    _ast.copy_location(n_, node)
+            self.exec_for(loop, cenv)
+            return d
         for s in segs:
             if not isinstance(s, tuple):
                 raise Unsupported("dict comprehension over a symbolic sequence")
